@@ -171,6 +171,17 @@ def concrete_violation():
                 return True, f'{nm}: NaN in samples'
         except Exception as e:
             return True, f'{nm}: sampling/density fails after fit: {type(e).__name__}: {e}'
+    # a refit computes the correlation through the *new* marginals: same as a fresh model fitted on the second table
+    t1 = tables['plain']
+    t2 = pd.DataFrame({'c': 25.0 + 3.0 * t1['b'].to_numpy() + t1['c'].to_numpy(), 'a': np.exp(t1['a'].to_numpy() / 2.0), 'b': t1['c'].to_numpy() - 7.0})
+    m = GaussianMultivariate(distribution=GaussianUnivariate)
+    m.fit(t1)
+    m.fit(t2)
+    fresh = GaussianMultivariate(distribution=GaussianUnivariate)
+    fresh.fit(t2)
+    if not np.allclose(m.correlation.to_numpy(), fresh.correlation.to_numpy(), atol=1e-10):
+        return True, ('refit: the correlation after fit(A); fit(B) differs from a fresh fit(B) by '
+                      f'{np.abs(m.correlation.to_numpy() - fresh.correlation.to_numpy()).max():.3g} (scores computed through stale marginals?)')
     return False, ''
 
 
